@@ -399,8 +399,6 @@ pub type AliasRes<T, E> = Result<T, E>;
 
 def main():
     outdir, tier, seed = sys.argv[1], sys.argv[2], int(sys.argv[3])
-    from shapes import Ret, INT_RET as IR
-    IR["ir_u64_io_alias"] = Ret("ir_u64_io_alias", "AliasRes<u64, std::io::Error>", IR["ir_u64_io"].expr, "ret.dg()", int_result=True, c_kind="int")
     ts = corpus(tier, seed)
     os.makedirs(os.path.join(outdir, "src"), exist_ok=True)
     nshards = 8
